@@ -188,6 +188,33 @@ func VH_C19_concurrent() {
 		run(func() { es.Subscribe(s0, vhEvtB{}) })
 		run(func() { es.Subscribe(s1, vhEvtA{}) })
 		want0, want1 = true, true
+	case 4: // two publishers of different types at the same time
+		es.Subscribe(s0, vhEvtA{})
+		es.Subscribe(s1, vhEvtB{})
+		// recording boxes are not goroutine-safe: each publisher tells a different box
+		run(func() { es.Publish(pub, vhEvtA{N: 1}) })
+		run(func() { es.Publish(pub, vhEvtB{N: 2}) })
+		wg.Wait()
+		vrtRaceOff()
+		na, nb, wrongA, wrongB := 0, 0, 0, 0
+		for _, e := range w.boxes[s0].all {
+			if m, ok := e.Message().(vhEvtA); ok && m.N == 1 {
+				na++
+			} else if _, ok := e.Message().(vhEvtB); ok {
+				wrongA++
+			}
+		}
+		for _, e := range w.boxes[s1].all {
+			if m, ok := e.Message().(vhEvtB); ok && m.N == 2 {
+				nb++
+			} else if _, ok := e.Message().(vhEvtA); ok {
+				wrongB++
+			}
+		}
+		vrtAssert(na == 1 && nb == 1, "publish-delivers-once-to-each-current-subscriber")
+		vrtAssert(wrongA == 0 && wrongB == 0, "publish-delivers-to-nobody-else")
+		vrtReach("joined")
+		return
 	}
 	wg.Wait()
 	vrtRaceOff()
